@@ -131,6 +131,22 @@ func universeS3() Universe {
 	return Universe{"S3", roots([]string{"a", "b", "c"}, false, false, false), roots([]string{"a", "b", "c"}, true, false, false)}
 }
 
+// SX: one directory "a" holding two files x (absent, F1, F1 executable, F2) and y (absent, F1):
+// executability-only edits next to sibling deletions, one level down (S1x has the bit only at the root level).
+func universeSX() Universe {
+	aopts := []*E{nil, file(1, false)}
+	for _, x := range []*E{nil, file(1, false), file(1, true), file(2, false)} {
+		for _, y := range []*E{nil, file(1, false)} {
+			aopts = append(aopts, dir("x", x, "y", y))
+		}
+	}
+	trees := []*E{nil}
+	for _, a := range aopts {
+		trees = append(trees, dir("a", a))
+	}
+	return Universe{"SX", trees, trees}
+}
+
 // SP: endpoint trees with phantom directories (Docker ignore syntax); they are
 // passed through the real ReifyPhantomDirectories first, as the controller does.
 func universeSP() Universe {
@@ -380,6 +396,9 @@ func show(e *E) string {
 	case core.EntryKind_Untracked:
 		return "U"
 	case core.EntryKind_Problematic:
+		if e.Problem != "p" {
+			return "P(" + e.Problem + ")"
+		}
 		return "P"
 	}
 	names := make([]string, 0, len(e.Contents))
@@ -442,6 +461,11 @@ func parseAt(s string) (*E, string) {
 			rest = strings.TrimPrefix(rest, ",")
 		}
 		return e, rest[1:]
+	case strings.HasPrefix(s, "P("):
+		i := strings.Index(s, ")")
+		e := problematic()
+		e.Problem = s[2:i]
+		return e, s[i+1:]
 	case strings.HasPrefix(s, "P"):
 		return problematic(), s[1:]
 	}
